@@ -1,11 +1,58 @@
-/- Model-driver operations of cluster B (see Driver/Main.lean): generated (Gen) and hand-written (Model) code models. -/
+/- Model-driver operations of cluster B (C03, C04, C17, C15, C19): the hand-written models of the table layer. -/
 import PdbVerif.Driver.Json
+import PdbVerif.Driver.BJson
+import PdbVerif.Model.Table
 
 namespace Driver.ModelB
-open Lean Driver
+open Lean Driver Driver.B Tbl
+
+def errJ (e : Model.Err) : Json := .str ("ERR:" ++ e.tag)
+
+def resultJ : Except Model.Err Model.Result → Json
+  | .ok (.data items) => itemsJ items
+  | .ok (.models per) => Json.mkObj [("models", .arr (per.map itemsJ).toArray)]
+  | .error e => errJ e
+
+def outJ : Except Model.Err Unit → Json
+  | .ok _ => "ok"
+  | .error e => errJ e
+
+/-- a history: after every step the outcome, and the whole state (`get('*')` of every table, `get_colnames()`) -/
+def runHist (db : Db) : List Tbl.Op → List Json
+  | [] => []
+  | op :: rest =>
+    let (db', out) := Model.step db op
+    Json.mkObj [("out", outJ out), ("db", dbJ db')] :: runHist db' rest
 
 def op (name : String) (j : Json) : Except String (Option Json) := do
   match name with
+  | "get" =>
+    let db ← dbOfJson (← j.getObjVal? "db")
+    pure (some (resultJ (Model.get db (← strOf j "columns") (← strOf j "tn") (← kwsOfJson j "kw"))))
+  | "get_xyz" =>
+    let db ← dbOfJson (← j.getObjVal? "db")
+    pure (some (resultJ (Model.get_xyz db (← strOf j "tn") (← kwsOfJson j "kw"))))
+  | "get_residues" =>
+    let db ← dbOfJson (← j.getObjVal? "db")
+    pure (some (match Model.get_residues db (← strOf j "tn") (← kwsOfJson j "kw") with
+      | .ok l => .arr (l.map (fun vs => Json.arr (vs.map valJ).toArray)).toArray
+      | .error e => errJ e))
+  | "get_chains" =>
+    let db ← dbOfJson (← j.getObjVal? "db")
+    pure (some (match Model.get_chains db (← strOf j "tn") (← kwsOfJson j "kw") with
+      | .ok l => .arr (l.map strJ).toArray
+      | .error e => errJ e))
+  | "get_all" =>
+    let db ← dbOfJson (← j.getObjVal? "db")
+    let cols ← strOf j "columns"; let kw ← kwsOfJson j "kw"
+    -- the source loops over the tables and raises at the first failing one
+    pure (some (match Model.get_all db cols kw with
+      | .ok l => .arr (l.map (fun r => resultJ (.ok r))).toArray
+      | .error e => errJ e))
+  | "hist" =>
+    let db ← dbOfJson (← j.getObjVal? "db")
+    let ops ← (← jArr j "ops").toList.mapM opOfJson
+    pure (some (.arr (runHist db ops).toArray))
   | _ => pure none
 
 end Driver.ModelB
